@@ -114,7 +114,7 @@ func init() {
 }
 
 // d17JsonDepthBoundary: json.ImpliedType at its nesting limit (/repo 0c63e6a, maxImpliedTypeDepth = 10000, which the
-// Lean side reads from the source: Generated.jsonMaxImpliedTypeDepth).  Arrays and objects nested 9999, 10000, 10001
+// Lean side reads from the source: Generated.jsonImpliedTypeDepthLimit).  Arrays and objects nested 9999, 10000, 10001
 // and 10002 deep run on the real code and through the model WITH the limit (driver op d17.jsonimplied,
 // lean/CtyModel/d17JsonDepth.lean): a type up to 10000, an error beyond.  (encoding/json's own Valid / Unmarshal refuse
 // the deeper ones, so the trees are written here by hand.)
